@@ -10,7 +10,9 @@
      importer/fs_importer.go  name+ext handed to fs.FS.Open
 
    Part B  the VM side: vm.modules cache, importer code cache, vm.loadedCode (globals arrays),
-     importModule (frame fp+1, body evaluated BEFORE the module is cached, nothing cached on failure),
+     importModule (a module imported while its own body is running is an import-cycle ERROR; frame fp+1; body
+     evaluated BEFORE the module is cached, nothing cached on failure; whatever the body left on the operand stack
+     is dropped),
      FromImport (names processed in reverse source order, any error of the first attempt swallowed),
      object.NewModule / Module.UseGlobals.  Ghost counters (never read by the control flow) count body
      starts and how each start ended. *)
@@ -127,7 +129,8 @@ Inductive modsrc := MBad | MBody (body : list action).
 (* the module tree: (name, extension) -> source *)
 Notation tree := (list (name * bstr * modsrc)).
 
-Inductive err := ENotFound | ECompile | EBoom | ECannotImport | EAttr | ENotModule | EUnbound.
+Inductive err := ENotFound | ECompile | EBoom | ECannotImport | EAttr | ENotModule | EUnbound
+             | ECycle.   (* import error: import cycle detected for module ... *)
 Inductive outcome := OK | Err (e : err) | Panic | Fuel.
 
 Inductive reqres := RFound (ext : bstr) (fresh : bool) | RNotFound | RBad (ext : bstr).
@@ -148,19 +151,16 @@ Record st := {
   trace : list event;                   (* newest first *)
   (* ghost *)
   starts : list (name * nat);
-  done_nr : list (name * nat);          (* completed, started while no body of the same name was in progress *)
-  done_r : list (name * nat);           (* completed, started re-entrantly *)
-  fail_nr : list (name * nat);
-  fail_r : list (name * nat);
+  dones : list (name * nat);            (* bodies that ran to their end *)
+  fails : list (name * nat);            (* bodies that failed *)
+  cycles : list (name * nat);           (* imports rejected as import cycles *)
   results : list (name * nat);          (* every successful importModule(n) = id *)
-  wlog : list (nat * option name);      (* every `x = v` executed: (globals array written, module whose code executed it) *)
-  fuzzy : bool                          (* a module body failed while a from-import had values pending on the operand stack:
-                                           what resumeFrame leaves there is outside the model *)
+  wlog : list (nat * option name)       (* every `x = v` executed: (globals array written, module whose code executed it) *)
 }.
 
 Definition init : st :=
   {| cache := []; compiled := []; loaded := []; arrays := [(0, [])]; next_arr := 1; next_mod := 0;
-     trace := []; starts := []; done_nr := []; done_r := []; fail_nr := []; fail_r := []; results := []; wlog := []; fuzzy := false |}.
+     trace := []; starts := []; dones := []; fails := []; cycles := []; results := []; wlog := [] |}.
 
 Record ctx := {
   c_self : option name;      (* the module whose code is executing; None = main *)
@@ -177,62 +177,57 @@ Definition max_frame : nat := 1024.
 Definition log (e : event) (s : st) : st :=
   {| cache := cache s; compiled := compiled s; loaded := loaded s; arrays := arrays s;
      next_arr := next_arr s; next_mod := next_mod s; trace := e :: trace s;
-     starts := starts s; done_nr := done_nr s; done_r := done_r s; fail_nr := fail_nr s; fail_r := fail_r s;
-     results := results s; wlog := wlog s; fuzzy := fuzzy s |}.
+     starts := starts s; dones := dones s; fails := fails s; cycles := cycles s;
+     results := results s; wlog := wlog s |}.
 Definition set_array (a : nat) (e : env) (s : st) : st :=
   {| cache := cache s; compiled := compiled s; loaded := loaded s; arrays := (a, e) :: arrays s;
      next_arr := next_arr s; next_mod := next_mod s; trace := trace s;
-     starts := starts s; done_nr := done_nr s; done_r := done_r s; fail_nr := fail_nr s; fail_r := fail_r s;
-     results := results s; wlog := wlog s; fuzzy := fuzzy s |}.
+     starts := starts s; dones := dones s; fails := fails s; cycles := cycles s;
+     results := results s; wlog := wlog s |}.
 Definition note_write (a : nat) (who : option name) (s : st) : st :=
   {| cache := cache s; compiled := compiled s; loaded := loaded s; arrays := arrays s;
      next_arr := next_arr s; next_mod := next_mod s; trace := trace s;
-     starts := starts s; done_nr := done_nr s; done_r := done_r s; fail_nr := fail_nr s; fail_r := fail_r s;
-     results := results s; wlog := (a, who) :: wlog s; fuzzy := fuzzy s |}.
-Definition set_fuzzy (s : st) : st :=
+     starts := starts s; dones := dones s; fails := fails s; cycles := cycles s;
+     results := results s; wlog := (a, who) :: wlog s |}.
+Definition note_cycle (n : name) (s : st) : st :=
   {| cache := cache s; compiled := compiled s; loaded := loaded s; arrays := arrays s;
      next_arr := next_arr s; next_mod := next_mod s; trace := trace s;
-     starts := starts s; done_nr := done_nr s; done_r := done_r s; fail_nr := fail_nr s; fail_r := fail_r s;
-     results := results s; wlog := wlog s; fuzzy := true |}.
+     starts := starts s; dones := dones s; fails := fails s; cycles := bump n (cycles s);
+     results := results s; wlog := wlog s |}.
 Definition add_result (n : name) (id : nat) (s : st) : st :=
   {| cache := cache s; compiled := compiled s; loaded := loaded s; arrays := arrays s;
      next_arr := next_arr s; next_mod := next_mod s; trace := trace s;
-     starts := starts s; done_nr := done_nr s; done_r := done_r s; fail_nr := fail_nr s; fail_r := fail_r s;
-     results := (n, id) :: results s; wlog := wlog s; fuzzy := fuzzy s |}.
+     starts := starts s; dones := dones s; fails := fails s; cycles := cycles s;
+     results := (n, id) :: results s; wlog := wlog s |}.
 (* importer.Import found and compiled the source: remember the code, make a module object *)
 Definition note_compiled (n : name) (s : st) : st :=
   {| cache := cache s; compiled := n :: compiled s; loaded := loaded s; arrays := arrays s;
      next_arr := next_arr s; next_mod := S (next_mod s); trace := trace s;
-     starts := starts s; done_nr := done_nr s; done_r := done_r s; fail_nr := fail_nr s; fail_r := fail_r s;
-     results := results s; wlog := wlog s; fuzzy := fuzzy s |}.
+     starts := starts s; dones := dones s; fails := fails s; cycles := cycles s;
+     results := results s; wlog := wlog s |}.
 (* vm.loadCode(module.Code()) for code not loaded yet: a fresh globals array *)
 Definition load_fresh (n : name) (s : st) : st :=
   {| cache := cache s; compiled := compiled s; loaded := (n, next_arr s) :: loaded s;
      arrays := (next_arr s, []) :: arrays s;
      next_arr := S (next_arr s); next_mod := next_mod s; trace := trace s;
-     starts := starts s; done_nr := done_nr s; done_r := done_r s; fail_nr := fail_nr s; fail_r := fail_r s;
-     results := results s; wlog := wlog s; fuzzy := fuzzy s |}.
-Definition begin_run (n : name) (re : bool) (d : nat) (s : st) : st :=
+     starts := starts s; dones := dones s; fails := fails s; cycles := cycles s;
+     results := results s; wlog := wlog s |}.
+Definition begin_run (n : name) (d : nat) (s : st) : st :=
   {| cache := cache s; compiled := compiled s; loaded := loaded s; arrays := arrays s;
      next_arr := next_arr s; next_mod := next_mod s; trace := EvStart n (S (get n (starts s))) d :: trace s;
-     starts := bump n (starts s); done_nr := done_nr s; done_r := done_r s; fail_nr := fail_nr s; fail_r := fail_r s;
-     results := results s; wlog := wlog s; fuzzy := fuzzy s |}.
+     starts := bump n (starts s); dones := dones s; fails := fails s; cycles := cycles s;
+     results := results s; wlog := wlog s |}.
 (* module.UseGlobals(code.Globals); vm.modules[name] = module *)
-Definition finish_ok (n : name) (id arr : nat) (re : bool) (d : nat) (s : st) : st :=
+Definition finish_ok (n : name) (id arr : nat) (d : nat) (s : st) : st :=
   {| cache := update n (id, arr) (cache s); compiled := compiled s; loaded := loaded s; arrays := arrays s;
      next_arr := next_arr s; next_mod := next_mod s; trace := EvDone n d :: trace s;
-     starts := starts s;
-     done_nr := if re then done_nr s else bump n (done_nr s);
-     done_r := if re then bump n (done_r s) else done_r s;
-     fail_nr := fail_nr s; fail_r := fail_r s;
-     results := (n, id) :: results s; wlog := wlog s; fuzzy := fuzzy s |}.
-Definition finish_fail (n : name) (re : bool) (s : st) : st :=
+     starts := starts s; dones := bump n (dones s); fails := fails s; cycles := cycles s;
+     results := (n, id) :: results s; wlog := wlog s |}.
+Definition finish_fail (n : name) (s : st) : st :=
   {| cache := cache s; compiled := compiled s; loaded := loaded s; arrays := arrays s;
      next_arr := next_arr s; next_mod := next_mod s; trace := trace s;
-     starts := starts s; done_nr := done_nr s; done_r := done_r s;
-     fail_nr := if re then fail_nr s else bump n (fail_nr s);
-     fail_r := if re then bump n (fail_r s) else fail_r s;
-     results := results s; wlog := wlog s; fuzzy := fuzzy s |}.
+     starts := starts s; dones := dones s; fails := bump n (fails s); cycles := cycles s;
+     results := results s; wlog := wlog s |}.
 
 (* -------- the importer: first extension whose file exists -------- *)
 Fixpoint find_file (T : tree) (n : name) (ext : bstr) : option modsrc :=
@@ -261,7 +256,6 @@ Definition bind (c : ctx) (loc : option env) (x : name) (v : value) (s : st) : o
   end.
 
 Inductive rv := ROk (v : value) | RErr (e : err).
-Inductive res_push := POk (pushed : list value) | PErr (e : err).
 Fixpoint walk (v : value) (p : list name) (s : st) : rv :=
   match p with
   | [] => ROk v
@@ -303,21 +297,18 @@ Definition value_same (a b : value) : bool :=
   end.
 
 (* -------- importModule, parameterised by the evaluator of a body -------- *)
-(* [ran]: a module body was evaluated by this very call (so resumeFrame pushed what the body left on the
-   operand stack back under the result) *)
-Inductive ires := IOk (id : nat) (arr : nat) (ran : bool) | IErr (e : err) (ran : bool) | IPanic | IFuel.
-(* what a completed module body leaves on the operand stack: the value of its last statement.  The harness
-   ends every module with a call that returns 0. *)
-Definition body_result : value := VInt 0.
+Inductive ires := IOk (id : nat) (arr : nat) | IErr (e : err) | IPanic | IFuel.
 Notation runner := (ctx -> option env -> list action -> st -> outcome * option env * st).
 
 Definition import_with (run : runner) (T : tree) (exts : list bstr) (c : ctx) (n : name) (s : st) : ires * st :=
   match lookup n (cache s) with
-  | Some (id, a) => (IOk id a false, add_result n id s)
+  | Some (id, a) => (IOk id a, add_result n id s)
   | None =>
+      if mem n (c_inprog c) then (IErr ECycle, note_cycle n s)        (* vm.importing[name]: before importer.Import *)
+      else
       match find_source T exts n with
-      | None => (IErr ENotFound false, log (EvReq n RNotFound) s)
-      | Some (ext, MBad) => (IErr ECompile false, log (EvReq n (RBad ext)) s)
+      | None => (IErr ENotFound, log (EvReq n RNotFound) s)
+      | Some (ext, MBad) => (IErr ECompile, log (EvReq n (RBad ext)) s)
       | Some (ext, MBody body) =>
           let fresh := negb (mem n (compiled s)) in
           let id := next_mod s in
@@ -326,53 +317,52 @@ Definition import_with (run : runner) (T : tree) (exts : list bstr) (c : ctx) (n
           let arr := match lookup n (loaded s2) with Some a => a | None => 0 end in
           if Nat.leb (pred max_frame) (c_depth c) then (IPanic, s2)     (* vm.frames[fp+1]: index out of range *)
           else
-            let re := mem n (c_inprog c) in
             let d := S (length (c_inprog c)) in
-            let s3 := begin_run n re d s2 in
+            let s3 := begin_run n d s2 in
             let c' := {| c_self := Some n; c_arr := arr; c_depth := S (c_depth c);
                          c_inprog := n :: c_inprog c; c_run := get n (starts s3) |} in
             match run c' None body s3 with
-            | (OK, _, s4) => (IOk id arr true, finish_ok n id arr re d s4)
-            | (Err e, _, s4) => (IErr e true, finish_fail n re s4)
-            | (Panic, _, s4) => (IPanic, finish_fail n re s4)
-            | (Fuel, _, s4) => (IFuel, finish_fail n re s4)
+            | (OK, _, s4) => (IOk id arr, finish_ok n id arr d s4)
+            | (Err e, _, s4) => (IErr e, finish_fail n s4)
+            | (Panic, _, s4) => (IPanic, finish_fail n s4)
+            | (Fuel, _, s4) => (IFuel, finish_fail n s4)
             end
       end
   end.
 
-(* op.FromImport: one name.  Returns what is pushed on the operand stack, in push order: the leftover of a
-   module body evaluated now (if any), then the value for the name. *)
-Definition from_one (run : runner) (T : tree) (exts : list bstr) (c : ctx) (parents : list name) (multi : bool) (nm : name) (s : st)
-  : (res_push + outcome) * st :=
+(* op.FromImport: one name (importModule leaves nothing but its result on the operand stack) *)
+Definition from_one (run : runner) (T : tree) (exts : list bstr) (c : ctx) (parents : list name) (nm : name) (s : st)
+  : (rv + outcome) * st :=
   match import_with run T exts c (from_name parents nm) s with
-  | (IOk id a ran, s1) =>
-      (inl (POk ((if ran then [body_result] else []) ++ [VMod id (from_name parents nm) a])), s1)
+  | (IOk id a, s1) => (inl (ROk (VMod id (from_name parents nm) a)), s1)
   | (IPanic, s1) => (inr Panic, s1)
   | (IFuel, s1) => (inr Fuel, s1)
-  | (IErr _ ran1, s1) =>                              (* any error: the name is taken to be a symbol of the parent *)
-      let s1 := if ran1 && multi then set_fuzzy s1 else s1 in
+  | (IErr _, s1) =>                                   (* any error: the name is taken to be a symbol of the parent *)
       match import_with run T exts c (from_parent parents) s1 with
-      | (IOk id a ran, s2) =>
+      | (IOk id a, s2) =>
           match walk (VMod id (from_parent parents) a) [nm] s2 with
-          | ROk v => (inl (POk ((if ran then [body_result] else []) ++ [v])), s2)
-          | RErr _ => (inl (PErr ECannotImport), s2)
+          | ROk v => (inl (ROk v), s2)
+          | RErr _ => (inl (RErr ECannotImport), s2)
           end
-      | (IErr e _, s2) => (inl (PErr e), s2)
+      | (IErr e, s2) => (inl (RErr e), s2)
       | (IPanic, s2) => (inr Panic, s2)
       | (IFuel, s2) => (inr Fuel, s2)
       end
   end.
 
-(* names are popped from the stack, i.e. processed in reverse source order; [stk] is the operand stack segment
-   of this statement, top first *)
-Fixpoint from_all (run : runner) (T : tree) (exts : list bstr) (c : ctx) (parents : list name) (multi : bool) (names : list name)
-  (stk : list value) (s : st) : (option (list value)) * outcome * st :=
+(* names are popped from the stack, i.e. processed in reverse source order; returns values in processing order *)
+Fixpoint from_all (run : runner) (T : tree) (exts : list bstr) (c : ctx) (parents : list name) (names : list name) (s : st)
+  : (option (list value)) * outcome * st :=
   match names with
-  | [] => (Some stk, OK, s)
+  | [] => (Some [], OK, s)
   | nm :: r =>
-      match from_one run T exts c parents multi nm s with
-      | (inl (POk pushed), s1) => from_all run T exts c parents multi r (rev pushed ++ stk) s1
-      | (inl (PErr e), s1) => (None, Err e, s1)
+      match from_one run T exts c parents nm s with
+      | (inl (ROk v), s1) =>
+          match from_all run T exts c parents r s1 with
+          | (Some vs, o, s2) => (Some (v :: vs), o, s2)
+          | (None, o, s2) => (None, o, s2)
+          end
+      | (inl (RErr e), s1) => (None, Err e, s1)
       | (inr o, s1) => (None, o, s1)
       end
   end.
@@ -393,19 +383,19 @@ Definition step_with (run : runner) (T : tree) (exts : list bstr) (c : ctx) (loc
   match a with
   | AImport path alias =>
       match import_with run T exts c path s with
-      | (IOk id a _, s1) =>
+      | (IOk id a, s1) =>
           let x := match alias with Some al => al | None => last_comp path end in
           let '(loc', s2) := bind c loc x (VMod id path a) s1 in (OK, loc', s2)
-      | (IErr e _, s1) => (Err e, loc, s1)
+      | (IErr e, s1) => (Err e, loc, s1)
       | (IPanic, s1) => (Panic, loc, s1)
       | (IFuel, s1) => (Fuel, loc, s1)
       end
   | AFrom parents imports =>
       let names := map fst imports in
-      match from_all run T exts c parents (Nat.ltb 1 (length names)) (rev names) [] s with
-      | (Some stk, _, s1) =>
-          (* the stores pop in source order: each takes whatever is on top of the stack *)
-          let '(loc', s2) := bind_all c loc (map (from_alias imports) names) stk s1 in (OK, loc', s2)
+      match from_all run T exts c parents (rev names) s with
+      | (Some vs, _, s1) =>
+          (* the stores pop in source order: source name i receives the value computed for it *)
+          let '(loc', s2) := bind_all c loc (map (from_alias imports) names) (rev vs) s1 in (OK, loc', s2)
       | (None, o, s1) => (o, loc, s1)
       end
   | ASet x v =>
